@@ -6,8 +6,10 @@ import os
 
 ROOT = os.path.dirname(os.path.dirname(os.path.abspath(__file__)))
 props = [json.loads(l) for l in open(os.path.join(ROOT, "properties.jsonl"))]
-obl = json.load(open(os.path.join(ROOT, "lean", "obligations.json")))
+obl = {f[:-5] for f in os.listdir(os.path.join(ROOT, "lean", "obligations.d")) if f.endswith(".json")}
 meta = json.load(open(os.path.join(ROOT, "tools", "meta.json")))
+meta["checks"] = {f[:-5]: json.load(open(os.path.join(ROOT, "tools", "meta.d", f)))
+                  for f in os.listdir(os.path.join(ROOT, "tools", "meta.d")) if f.endswith(".json")}
 
 built = [p["id"] for p in props
          if p["id"] in obl and p["id"] in meta.get("checks", {})
